@@ -466,6 +466,11 @@ class Parser(object):
                     self.need_word('and')
                     hi = self.expr(cbp)
                     left = ('between', left, lo, hi, neg)
+            elif v == 'div' and self.P.has_div_operator:
+                if 70 <= rbp:
+                    break
+                self.i += 1
+                left = ('bin', 'div', left, self.expr(70))
             elif v in _UNMODELLED_WORDS:
                 raise Unmodelled('operator word %s' % v.upper())
             else:
@@ -714,6 +719,7 @@ class Personality(object):
     in_values_syntax = False
     trim_from_syntax = True
     empty_string_is_null = False
+    has_div_operator = False
     derived_table_needs_alias = False   # sqlite lang_select; PG 16 release notes ("allow subqueries in the FROM clause to omit aliases"); ORA SELECT
     # binding powers
     bp_or, bp_and, bp_not, bp_is, cmp_word_bp, bp_unary = 10, 20, 30, 40, 40, 80
@@ -821,6 +827,8 @@ class Personality(object):
             return self.divide(a, b)
         if op == '%':
             return self.modulo(a, b)
+        if op == 'div':
+            return self.int_div(a, b)
         raise Unmodelled('%s: operator %s' % (self.name, op))
 
     def arith_bool(self, op, a, b):
@@ -831,6 +839,9 @@ class Personality(object):
 
     def modulo(self, a, b):
         raise Unmodelled('%s: %%' % self.name)
+
+    def int_div(self, a, b):
+        raise Unmodelled('%s: DIV' % self.name)
 
     def concat_op(self, a, b):
         raise Unmodelled('%s: ||' % self.name)
@@ -1367,6 +1378,17 @@ class MySQLPersonality(Personality):
         if isinstance(a, int) and isinstance(b, int):
             return a - b * _trunc_div(a, b)
         raise Unmodelled('mysql: non-integer %')
+
+    has_div_operator = True
+
+    def int_div(self, a, b):
+        # MY 12.6.1 DIV: "Integer division. Discards from the division result any fractional part to the right of the decimal
+        # point"; division by zero gives NULL
+        if b == 0:
+            return None
+        if isinstance(a, int) and isinstance(b, int):
+            return _trunc_div(a, b)
+        raise Unmodelled('mysql: DIV on non-integers')
 
     def concat_op(self, a, b):
         # MY 12.4.3: "OR, ||  Logical OR" (|| concatenates only under sql_mode PIPES_AS_CONCAT)
